@@ -86,8 +86,9 @@ def agg_property(run):
     traces = aggtrace.random_batch(run.seed, 400 if q else 2000, flags="random" if pid == "C08" else "default")
     for k in range(0, len(traces), 500):       # batches: TLC deserialises one JSON document per run
         aggtrace.validate_batch(run, traces[k:k + 500])
-    run.sample({"recorded_trace": traces[0]["id"], "events": len(traces[0]["events"]),
-                "first_event": traces[0]["events"][0] if traces[0]["events"] else None})
+    if traces and "events" in traces[0]:
+        run.sample({"recorded_trace": traces[0]["id"], "events": len(traces[0]["events"]),
+                    "first_event": traces[0]["events"][0] if traces[0]["events"] else None})
     run.exhaustive = True
     run.assumptions += ["re.sub and str.upper are trusted library functions (their results are inputs of the spec)",
                         "strip patterns are drawn from {'', '^_p_'}; the kwargs trigger string is ':keyword'",
